@@ -115,7 +115,11 @@ let run_script (toks : string list) : string =
     let s = !st in
     let opstr o c =
       let status = match c.o_status with
-        | CAlloc -> "alloc" | CWait -> "pending" | COk0 (Some r) -> Printf.sprintf "ok:%d" (int_of_nat r.r_tok) | COk0 None -> "ok:null" | CErr e -> "err:" ^ cerr_str e
+        | CAlloc -> "alloc" | CWait -> "pending"
+        (* what the driver hands to a single-result operation is parsed by its caller (op_call: LdapResultExt::try_from_tag): a search entry
+           or reference - or, before repair F29, an intermediate response - is no LDAPResult: Err(Io "malformed result") *)
+        | COk0 (Some r) when (match r.r_kind with REntry | RRef | RInter -> true | _ -> false) -> "err:io"
+        | COk0 (Some r) -> Printf.sprintf "ok:%d" (int_of_nat r.r_tok) | COk0 None -> "ok:null" | CErr e -> "err:" ^ cerr_str e
         | SActive -> "active" | SDone -> "done" | SClosed -> "closed" | SError -> "error" | SPanicked -> "panicked" | SStartErr e -> "starterr:" ^ cerr_str e in
       Printf.sprintf "%d:%s:[%s]:%s:%s" o status (String.concat "," (List.map (fun r -> string_of_int (int_of_nat r.r_tok)) c.o_got))
         (if c.o_call <> None then "call" else "idle") (info o).lastres in
